@@ -520,6 +520,15 @@ theorem attached_false (o : Obj) : attached o = false ↔ o.fdtId = none ∧ o.w
   unfold attached
   cases o.fdtId <;> cases o.wsess <;> simp
 
+theorem same_fdtConflictReset (o : Obj) (file : FileAbs) : Same o (fdtConflictReset o file) := by
+  unfold fdtConflictReset Same
+  split
+  · exact ⟨rfl, rfl, rfl, rfl, rfl⟩
+  · split
+    · simp only []
+      split <;> (split <;> exact ⟨rfl, rfl, rfl, rfl, rfl⟩)
+    · exact ⟨rfl, rfl, rfl, rfl, rfl⟩
+
 theorem attachFdt_toi (o : Obj) (id : Nat) (fdt : FdtAbs) : (attachFdt o id fdt).1.toi = o.toi := by
   unfold attachFdt
   by_cases h : o.fdtId.isSome = true
@@ -532,7 +541,7 @@ theorem attachFdt_toi (o : Obj) (id : Nat) (fdt : FdtAbs) : (attachFdt o id fdt)
       rw [(tu_pushFromCache _).toi, (tr_writeBlocks _ _ _).toi, (tu_pushFromCache _).toi,
         (tr_initObjectWriter _).1.toi, (same_initBlocks _).1]
       simp only []
-      split <;> (split <;> (try split) <;> rfl)
+      split <;> (split <;> (try split) <;> exact (same_fdtConflictReset o file).1)
 
 /-- **`ObjIface.Law` for `Mini`**: writer calls only after a successful attach; attach only to an
     instance that lists the object's TOI -/
